@@ -178,16 +178,9 @@ func (p *parser) continueExpression(node Node, prec int) (Node, error) {
 					return nil, err
 				}
 
-				if isProjectNode(node) {
-					node = &ProjectArrayNode{
-						Left:  node,
-						Right: right,
-					}
-				} else {
-					node = &PipeNode{
-						Left:  node,
-						Right: right,
-					}
+				node = &PipeNode{
+					Left:  node,
+					Right: right,
 				}
 			default:
 				return nil, &unexpectedTokenError{p.curr.Value}
